@@ -16,6 +16,7 @@
    events; the three predicates are those of Spec/FrameOwnSpec.v. *)
 From Coq Require Import ZArith List Bool.
 From Verif Require Import Gen.GenSites Spec.FrameOwnSpec Model.FrameOwn Proofs.FrameOwnP.
+From Verif Require Import Model.FrameOwnCall Proofs.FrameOwnCallP.
 Import ListNotations.
 Local Open Scope Z_scope.
 
@@ -131,3 +132,107 @@ Example C12_example_sites :
     forallb (fun x => existsb (fun e => match e with EGet y _ _ | ERel y _ => y =? x | _ => false end) (s_trace s))
             (map fst site_table) = true.
 Proof. eexists. split; [vm_compute; reflexivity|]. vm_compute. reflexivity. Qed.
+
+(* ==================================================================== per completed call
+
+   "on calls that complete without a fault every frame is handed back", stated for ONE call
+   while other calls may be in any state (Model/FrameOwnCall.v):
+     call_done s k     the call's argument reader reached fragmentingReadComplete, its writer
+                       reqResWriterComplete without an error, and completion did not come from
+                       InboundCallResponse.SendSystemError / a failed dispatch;
+     call_settled s k  call_done and the call's recvCh is empty (the peer sent nothing beyond
+                       the last fragment);
+     call_holds s k t  frame t waits in the call's recvCh, is an unreleased fragment of its
+                       reader, or the unsent fragment of its writer;
+     call_toks h k     the frames history h attributes to call k (ever in its recvCh, a
+                       fragment of its reader or of its writer). *)
+
+(* On EVERY run -- any schedule, any fault history -- the reader and the writer of a call that
+   completed without a fault refer to no frame. *)
+Theorem C12_completed_call_reader_writer_hold_nothing : forall cap ls s k,
+  run false (init cap) ls = Some s -> call_done s k ->
+  forall t, ~ rdr_holds s k t /\ ~ wr_holds s k t.
+Proof. exact completed_call_rw_thm. Qed.
+Print Assumptions C12_completed_call_reader_writer_hold_nothing.
+
+(* ... so a completed call whose recvCh is drained holds no frame. *)
+Theorem C12_completed_call_holds_no_frame : forall cap ls s k,
+  run false (init cap) ls = Some s -> call_settled s k -> forall t, ~ call_holds s k t.
+Proof. exact completed_call_thm. Qed.
+Print Assumptions C12_completed_call_holds_no_frame.
+
+(* C12_faultfree_all_released per completed call, no global quiescence: on a run without
+   frame-dropping steps every frame the history attributes to a settled call has been released,
+   except fragments it wrote that still wait in a send queue for the connection's writer loop. *)
+Theorem C12_faultfree_call_released : forall cap ls s k,
+  run_noloss (init cap) ls = Some s -> call_settled s k ->
+  forall t, In t (call_toks (history s) k) -> In t (rels (history s)) \/ exists c, In t (s_send s c).
+Proof. exact call_frames_released. Qed.
+Print Assumptions C12_faultfree_call_released.
+
+(* the same seen from the frame: an unreleased frame that is not in a send queue is held by a
+   call that has not settled *)
+Theorem C12_faultfree_unreleased_has_open_call : forall cap ls s,
+  run_noloss (init cap) ls = Some s ->
+  forall t, In t (gets (history s)) ->
+    In t (rels (history s)) \/ (exists c, In t (s_send s c)) \/
+    (exists k, call_holds s k t /\ ~ call_settled s k).
+Proof. exact noloss_per_call. Qed.
+Print Assumptions C12_faultfree_unreleased_has_open_call.
+
+(* Each side condition is needed (witness runs, none of whose steps is in [loses]):
+   a frame the peer sent beyond the last fragment stays in recvCh of the completed call; *)
+Theorem C12_call_drained_needed :
+  exists s, run_noloss (init 8) extra_frame_witness = Some s /\ call_done s 9 /\
+            exists t, In t (x_q (s_mex s 9)) /\ In t (gets (history s)) /\ ~ In t (rels (history s)).
+Proof. exact drained_needed. Qed.
+Print Assumptions C12_call_drained_needed.
+
+(* SendSystemError after the handler began to write the response strands the response fragment; *)
+Theorem C12_call_quit_needed :
+  exists s, run_noloss (init 8) syserr_midwrite_witness = Some s /\
+            r_complete (s_rdr s 7) = true /\ w_complete (s_wr s 7) = true /\ w_err (s_wr s 7) = false /\
+            x_q (s_mex s 7) = [] /\ wr_holds s 7 1 /\ ~ In 1 (rels (history s)).
+Proof. exact quit_needed. Qed.
+Print Assumptions C12_call_quit_needed.
+
+(* a deadline that passes while the last fragment is flushed strands that fragment. *)
+Theorem C12_call_werr_needed :
+  exists s, run_noloss (init 8) timeout_lastflush_witness = Some s /\
+            r_complete (s_rdr s 7) = true /\ w_complete (s_wr s 7) = true /\ r_quit (s_rdr s 7) = false /\
+            x_q (s_mex s 7) = [] /\ wr_holds s 7 1 /\ ~ In 1 (rels (history s)).
+Proof. exact werr_needed. Qed.
+Print Assumptions C12_call_werr_needed.
+
+(* non-vacuity: call 7 of [example_call] completes and settles while call 8 on the same
+   connection is still reading its request (the state is NOT quiescent: call 8 holds frame 6);
+   the history attributes frames 2..5 to call 7, all released *)
+Definition example_two_calls : list label :=
+  example_call ++ [LReadCallReq 1 8; LFetch 8 true true true; LAcc 8].
+Example C12_example_two_calls :
+  exists s, run_noloss (init 8) example_two_calls = Some s /\ call_settled s 7 /\
+            call_toks (history s) 7 = [2; 3; 3; 4; 5] /\ rels (history s) = [0; 1; 2; 3; 4; 5] /\
+            rdr_holds s 8 6 /\ ~ quiescent s.
+Proof.
+  eexists. split; [vm_compute; reflexivity|]. split; [repeat split|]. split; [reflexivity|]. split; [reflexivity|].
+  assert (Hh : rdr_holds (match run_noloss (init 8) example_two_calls with Some s => s | None => init 8 end) 8 6).
+  { vm_compute. right. split; reflexivity. }
+  split; [exact Hh|]. intros Q. apply (Q 6). left. exists 8. right. left. exact Hh.
+Qed.
+
+(* the frame handed to a failed exchange: stopExchanges has latched the error of outbound call 9
+   (LErrN), the next response fragment still finds room in recvCh and is queued -- it belongs to
+   the call, is read by the application and released exactly once, by the fragment's done() *)
+Definition example_latched : list label :=
+  [LNewMex 9 1 2; LWNew 9 true; LWAcc 9; LWFlush 9 true; LWrite 1 false;
+   LReadFwd 1 (Some 9) 0; LFetch 9 true true true; LAcc 9;
+   LErrN 9; LReadFwd 1 (Some 9) 0; LReadFwd 1 (Some 9) 0; LReadFwd 1 (Some 9) 0;
+   LFetch 9 true true true; LAcc 9; LReadFwd 1 (Some 9) 0; LFetch 9 true true true; LAcc 9; LFetch 9 true true true].
+Example C12_example_latched :
+  exists s, run false (init 8) example_latched = Some s /\ tr_okb (s_trace s) = true /\
+            (* request fragment; response fragments 1..3 released by done(); fragment 4 refused (recvCh
+               full, error latched) and fragment 5 refused although recvCh has room again (frameDropped):
+               both released by the reader loop *)
+            map (tok_code (history s)) (gets (history s)) = [200900; 31900; 31900; 31900; 30400; 30400] /\
+            x_dropped (s_mex s 9) = true /\ r_err (s_rdr s 9) = true.
+Proof. eexists. split; [vm_compute; reflexivity|]. repeat split. Qed.
